@@ -332,8 +332,13 @@ class QvmCode(BaseCode):
                 if cur_type.is_integral and \
                    isinstance(arg, float):
                     # perform rounding first if casting from float to
-                    # integer
-                    arg = round(arg)
+                    # integer (an infinite or NaN constant is left to
+                    # the conversion error at run time)
+                    try:
+                        arg = round(arg)
+                    except (OverflowError, ValueError):
+                        i += 1
+                        continue
 
                 # Fold only if the value can fit in target type
                 # (otherwise we'll leave it and there will be a
